@@ -403,7 +403,9 @@ def _generate_once(r, filt, profile):
         marg = ['none', 'empty'][int(r.integers(2))]
         trace.append(dict(kind='no_measurements', form=marg))
     knobs['measurements_arg'] = marg
-    knobs['rerun'] = bool(r.random() < 0.12)
+    # second run with the SAME measurement / model objects: 'same' = the same call twice,
+    # 'prefix' = first a run over the first half of the data, then the full one
+    knobs['rerun'] = [None, None, None, None, None, None, 'same', 'prefix'][int(r.integers(8))]
     p_none = 0.3 if profile == 'sched' else 0.1
     knobs['gyro_model'] = gen_sensor_model(r, 'gyro', p_none=p_none)
     knobs['accel_model'] = gen_sensor_model(r, 'accel', p_none=p_none)
@@ -545,6 +547,29 @@ def reset_spies(m):
     for obj in m['measurements']:
         obj.spy_log.clear()
     m['delivery'].clear()
+
+
+def run_prefix(sc, m, kw):
+    """A run over the first half of the data with the given (shared) objects; its result is
+    not judged, it only leaves whatever state it leaves in the caller's objects."""
+    kn = sc['knobs']
+    sig = [float(s) * float(kn.get('error_scale', 1.0)) for s in kn['sigmas']]
+    kw = dict(kw)
+    kw.pop('increments', None)
+    try:
+        with InitialSize(kn.get('initial_size', 10000)), \
+                StepBudget(4 * step_budget_for(sc, m)):
+            if sc['filter'] == 'feedback':
+                h = max(2, len(m['increments']) // 2)
+                filters.run_feedback_filter(m['initial'], *sig, m['increments'].iloc[:h], **kw)
+            else:
+                h = max(3, len(m['computed']) // 2)
+                if kn.get('increments_given', True):
+                    kw['increments'] = m['increments']
+                filters.run_feedforward_filter(m['nominal'].iloc[:h], m['computed'].iloc[:h],
+                                               *sig, **kw)
+    except Exception:
+        pass
 
 
 def run_filter(sc, m, budget=None, reuse=None):
